@@ -1098,7 +1098,7 @@ func main() {
 
 	// ---- Facts.lean
 	var ft strings.Builder
-	ft.WriteString("/-! GENERATED by tools/go2lean from the current /repo sources. Do not edit. -/\nnamespace Jrpc.Gen.Facts\n\n")
+	ft.WriteString("import Jrpc.GoPrelude\n/-! GENERATED by tools/go2lean from the current /repo sources. Do not edit. -/\nnamespace Jrpc.Gen.Facts\n\n")
 	ft.WriteString("/-- one syntactic site: file, enclosing function, what, and whether the owner's mutex is held there -/\nstructure Site where\n  file : String\n  fn : String\n  field : String\n  what : String\n  locked : Bool\n  deriving DecidableEq, Repr\n\n")
 	var chanSites, writers, gos, sems []site
 	chanRecv := map[string]bool{"ch": true, "s.ch": true, "c.ch": true}
@@ -1389,6 +1389,25 @@ func main() {
 		fmt.Fprintf(&ft, "/-- calls of the per-connection goroutine of `server.Loop`, in source order -/\ndef loopCalls : List String := [%s]\n", strings.Join(calls, ", "))
 		fmt.Fprintf(&ft, "/-- `wg.Add(1)` precedes the `go` statement; `wg.Wait()` precedes Loop's return -/\ndef loopWg : Bool × Bool := (%v, %v)\n\n", addBeforeGo, waitBeforeReturn)
 	}
+	// channel.IsErrClosing: which sentinel errors count as "the connection / listener was closed"
+	guard(&ft, []string{"isErrClosingSentinels"}, func() {
+		fd, _ := findFunc(chanp, "", "IsErrClosing")
+		if fd == nil {
+			fail("channel.IsErrClosing not found")
+		}
+		var sent []string
+		ast.Inspect(fd.Body, func(n ast.Node) bool {
+			if call, ok := n.(*ast.CallExpr); ok && (src(call.Fun) == "errors.Is" || src(call.Fun) == "errors.As") && len(call.Args) == 2 {
+				sent = append(sent, leanStr(src(call.Args[1])))
+			}
+			if be, ok := n.(*ast.BinaryExpr); ok && (be.Op == token.EQL || be.Op == token.NEQ) && src(be.X) == "err" && src(be.Y) != "nil" {
+				sent = append(sent, leanStr(src(be.Y)))
+			}
+			return true
+		})
+		sort.Strings(sent)
+		fmt.Fprintf(&ft, "/-- the sentinel errors `channel.IsErrClosing` recognises (via errors.Is / ==), sorted -/\ndef isErrClosingSentinels : List String := [%s]\n\n", strings.Join(sent, ", "))
+	})
 	ft.WriteString("end Jrpc.Gen.Facts\n")
 	write(*out, "Facts.lean", ft.String())
 	write(*out, "FAILURES.txt", strings.Join(failures, "\n"))
